@@ -87,6 +87,10 @@ KINDS = {
                                    "required": ["t", "c"], "additionalProperties": False},
                                   {"type": "object", "properties": {"t": {"type": "string", "enum": ["U"]}}, "required": ["t"],
                                    "additionalProperties": False}]},
+    "untagged_tuple1": {"oneOf": [{"type": "array", "items": [{"type": "integer"}], "minItems": 1, "maxItems": 1}, {"type": "string"}]},
+    "external_tuple1": {"oneOf": [{"type": "string", "enum": ["None"]},
+                                  {"type": "object", "required": ["One"], "additionalProperties": False,
+                                   "properties": {"One": {"type": "array", "items": [{"type": "integer"}], "minItems": 1, "maxItems": 1}}}]},
     "untagged": {"oneOf": [{"type": "integer"}, {"type": "string"},
                            {"type": "object", "properties": {"k": {"type": "boolean"}}, "required": ["k"]}]},
     "boxed": {"$ref": "#/definitions/Tree"},
@@ -116,6 +120,7 @@ HAND_VALUES = {
     "enum_ref": ["Blue"], "external": ["Unit", {"N": 5}, {"S": {"x": 1}}, {"S": {"x": 1, "y": "z"}}, {"T": [1, True]}],
     "internal": [{"t": "A", "x": 3}, {"t": "B"}], "adjacent": [{"t": "A", "c": 4}, {"t": "B", "c": ["q"]}, {"t": "U"}],
     "adjacent_closed": [{"t": "A", "c": 4}, {"t": "U"}],
+    "untagged_tuple1": [[0], [5], "s"], "external_tuple1": ["None", {"One": [7]}],
     "untagged": [5, "five", {"k": True}], "boxed": [{"n": 1}, {"n": 1, "kid": {"n": 2}}], "unit": [None],
     "any": [None, 1, "s", [1, {"a": None}], {"k": 1.5}],
 }
@@ -135,6 +140,7 @@ BAD_VALUES = {   # violations of represented constraints (or of the integer rang
     "external": ["Nope", {"N": "x"}, {"S": {}}, {"T": [1]}, {"N": 1, "S": {"x": 1}}],
     "internal": [{"t": "C"}, {"t": "A"}, {"x": 3}], "adjacent": [{"t": "A"}, {"t": "A", "c": "x"}, {"t": "Z", "c": 1}],
     "adjacent_closed": [{"t": "A", "c": 4, "zz": 1}, {"t": "U", "zz": 1}, {"t": "U", "c": 1}],
+    "untagged_tuple1": [[1, 2], ["x"], 5], "external_tuple1": [{"One": [1, 2]}, {"One": 7}, "Some"],
     "untagged": [1.5, None, {"k": 1}], "boxed": [{"kid": {"n": 1}}, {"n": 1, "kid": {}}], "unit": [0, "null"],
     "uuid": ["not-a-uuid", 5], "date": ["2020-13-40", 5], "datetime": ["yesterday"], "ip": ["300.1.1.1"], "ipv4": ["::1"],
 }
